@@ -10,7 +10,7 @@ from sa.model import contains, enclosing, is_user_func_call, node_classes
 from sa.qualifiers import INNER, OUTER, NameSpaces
 from sa.variants import Variant, replace_once, sub_first, sub_once
 
-from .common import call_names
+from .common import call_names, must_reach_in_iteration
 
 ID = "C06"
 EXPLANATION = (
@@ -85,26 +85,7 @@ def run(ctx) -> None:
     check_batch_isolation(ctx, "C06.R1", (brm, bfm))
 
     # ---- R2 ---------------------------------------------------------------------
-    seen = set()
-    for ci in node_classes(db):
-        for name, target in (("map_inputs_to_params", brm), ("_original_map_params", brm), ("_original_clone", brm), ("map_outputs_from_original", brm), ("_resolve_original_input_name", brm), ("output_annotation", brm), ("defaults", bfm), ("parameter_annotations", bfm)):
-            m = ci.find_method(name)
-            if m is None or m.qname in seen:
-                continue
-            if name == "output_annotation" and m.cls.name != "GraphNode":
-                continue  # callable nodes derive output types positionally from the return annotation
-            seen.add(m.qname)
-            if m.cls.name == "HyperNode" and name == "map_inputs_to_params":
-                # abstract default: identity for nodes without renames is decided by the concrete classes
-                pass
-            clo = db.closure([m], property_reads=True)
-            ok = target in clo
-            if not ok and m.cls.name == "HyperNode":
-                body = [s for s in m.body if not (isinstance(s, ast.Expr) and isinstance(s.value, ast.Constant))]
-                if len(body) == 1 and isinstance(body[0], (ast.Return, ast.Raise)):
-                    rep.ok("C06.R2", f"{m.qname}", m.loc(), "base-class default (no rename support at this level)")
-                    continue
-            rep.add("C06.R2", f"{m.qname}", ok, m.loc(), f"reaches {target.name}" if ok else f"does not reach {target.name}: this translator resolves renamed names on its own")
+    check_translators_reach_resolver(ctx, "C06.R2")
 
     # ---- R3 ---------------------------------------------------------------------
     n_sites = 0
@@ -202,6 +183,36 @@ def run(ctx) -> None:
 
 
 
+def check_translators_reach_resolver(ctx, rule: str, only_class: str | None = None) -> None:
+    """Every name translator of the node classes reaches the single batch-aware resolver."""
+    db, rep = ctx.db, ctx.rep
+    brm = db.func("nodes._rename.build_reverse_rename_map")
+    bfm = db.func("nodes._callable._build_forward_rename_map")
+    seen = set()
+    for ci in node_classes(db):
+        for name, target in (("map_inputs_to_params", brm), ("_original_map_params", brm), ("_original_clone", brm), ("map_outputs_from_original", brm), ("_resolve_original_input_name", brm), ("output_annotation", brm), ("defaults", bfm), ("parameter_annotations", bfm)):
+            m = ci.find_method(name)
+            if m is None or m.qname in seen:
+                continue
+            if only_class is not None and m.cls.name != only_class:
+                continue
+            if name == "output_annotation" and m.cls.name != "GraphNode":
+                continue  # callable nodes derive output types positionally from the return annotation
+            seen.add(m.qname)
+            if m.cls.name == "HyperNode" and name == "map_inputs_to_params":
+                # abstract default: identity for nodes without renames is decided by the concrete classes
+                pass
+            clo = db.closure([m], property_reads=True)
+            ok = target in clo
+            if not ok and m.cls.name == "HyperNode":
+                body = [s for s in m.body if not (isinstance(s, ast.Expr) and isinstance(s.value, ast.Constant))]
+                if len(body) == 1 and isinstance(body[0], (ast.Return, ast.Raise)):
+                    rep.ok(rule, f"{m.qname}", m.loc(), "base-class default (no rename support at this level)")
+                    continue
+            rep.add(rule, f"{m.qname}", ok, m.loc(), f"reaches {target.name}" if ok else f"does not reach {target.name}: this translator resolves renamed names on its own")
+
+
+
 def check_batch_isolation(ctx, rule: str, funcs) -> None:
     """The per-batch loop of a rename-map builder must not write the map it looks up."""
     rep = ctx.rep
@@ -233,6 +244,13 @@ def check_batch_isolation(ctx, rule: str, funcs) -> None:
             if ok and not applied:
                 ok, why = False, "the batch's updates are never applied to the look-up map"
         rep.add(rule, f"{f.qname}:batch-isolation", ok, f.loc(), why)
+        # every entry of a batch records its update: the store is reached on every path through one iteration
+        fcfg = ctx.cfg(f)
+        for lp in inner:
+            ln = [n for n in fcfg.nodes if n.kind == "for" and n.ast is lp]
+            stores = [n for n in fcfg.nodes if n.kind == "stmt" and isinstance(n.ast, ast.Assign) and isinstance(n.ast.targets[0], ast.Subscript) and contains(lp, n.ast)]
+            okr = bool(ln) and bool(stores) and must_reach_in_iteration(fcfg, ln[0], stores, {})
+            rep.add(rule, f"{f.qname}:every-entry-recorded", okr, f"{f.module.rel}:{lp.lineno}", "every rename entry of a batch records its mapping unconditionally" if okr else "an entry of a batch can be skipped without recording its mapping: an older mapping for that name (left by an earlier batch) survives, so after swap + swap-back or a full rotation values are routed to the wrong parameter")
 
 
 
